@@ -34,7 +34,11 @@ class Acc(object):
 
   def violation(self, mech, summary, detail=None):
     self.count('violations_raw')
-    if len(self.violations) < 12:
+    # Keep at most 3 records per mechanism (and 60 in all), so that a dense known finding cannot
+    # crowd out an unlisted violation of another kind; every hit is counted.
+    self.count('violations_by_mech.' + str(mech))
+    per = sum(1 for v in self.violations if v['mech'] == mech)
+    if per < 3 and len(self.violations) < 60:
       self.violations.append({'property': self.pid, 'mech': mech, 'summary': summary,
                               'detail': detail})
 
